@@ -535,6 +535,11 @@ func (w *world) sub(i int, r subReq) result {
 	in := w.insts[i]
 	res := w.post(in, "/sign-subtree", r.body)
 	emit("sub", []string{fmt.Sprint(i), r.hdr, r.note.abstract}, strings.Join([]string{res.status, res.body, res.signers}, "|"))
+	if r.origin != "" {
+		sg := r.note.abstract[strings.LastIndex(r.note.abstract, ":")+1:]
+		w.event(r.origin, i, fmt.Sprintf("sign-subtree [%d,%d) hash=%x under checkpoint %d/%x(%s) sigs=%s", r.s, r.e, r.sh[:4], r.n, r.root[:4], w.which(r.n, r.root), sg),
+			nil, "", res.status+" signers="+res.signers, "", "")
+	}
 	w.monSub(r, res)
 	return res
 }
